@@ -11,6 +11,7 @@ func genBitsCode(repo string) (string, error) {
 	body, err := Translate(repo, TransSpec{
 		Dir:     "setz",
 		Structs: []string{"Bitmap"},
+		Expect:  map[string][]ExpectField{"Bitmap": {{"set", "[]uint64"}}},
 		Funcs: []string{"Bitmap.Grow", "Bitmap.Add", "Bitmap.Remove", "Bitmap.Contains", "Bitmap.Len", "Bitmap.Cap",
 			"Bitmap.Diff", "Bitmap.Intersect", "Bitmap.Merge", "Bitmap.Clone", "Bitmap.add"},
 	})
@@ -30,6 +31,7 @@ func genDszBitsCode(repo string) (string, error) {
 	body, err := Translate(repo, TransSpec{
 		Dir:     "dsz",
 		Structs: []string{"Bits"},
+		Expect:  map[string][]ExpectField{"Bits": {{"length", "int"}, {"set", "[]uint64"}}},
 		Funcs:   []string{"Bits.Grow", "Bits.Add", "Bits.Remove", "Bits.Contains", "Bits.Len", "Bits.Cap"},
 	})
 	if err != nil {
